@@ -44,6 +44,36 @@ def fn_consts(b):
     return out
 
 
+def _component(b, op, hops=6):
+    """the operand a format argument really is: `&(a, b).1` -> b (format_args! packs its arguments into a tuple and borrows the components)"""
+    from mirlib import op_place
+    while hops > 0:
+        hops -= 1
+        p = op_place(op)
+        if p is None or p[1]:
+            return op
+        d = b.single_def(p[0])
+        if d is None or d[0] != "assign":
+            return op
+        rv = d[3]
+        if rv[0] == "use":
+            op = rv[1]
+            continue
+        if rv[0] == "ref":
+            rp = rv[2]
+            flds = [x for x in rp[1] if isinstance(x, list) and x[0] == "f"]
+            if len(flds) == 1 and len([x for x in rp[1] if x != "*"]) == 1:
+                dd = b.single_def(rp[0])
+                if dd is not None and dd[0] == "assign" and dd[3][0] == "agg" and dd[3][1].get("tuple") and flds[0][1] < len(dd[3][2]):
+                    op = dd[3][2][flds[0][1]]
+                    continue
+            if not rp[1]:
+                op = ["c", rp]
+                continue
+        return op
+    return op
+
+
 def run(ctx):
     rc = ctx.crate(RC)
     md = ctx.crate(MD)
@@ -691,3 +721,36 @@ def run(ctx):
                     own = ((b.meta.get("owner") or b.meta).get("self_adt") or "").split("::")[-1]
                     r.check(why is not None, "%s%s/%s#%d/%s" % (own + "::" if own else "", fn, kind.split(":")[0], k_, desc.split("(")[0][:20]), b.loc(line), "%s: %s" % (kind, why), "potential panic on parser input: %s %s" % (kind, desc[:80]))
         r.check(nb >= 150, "scope/bodies", "-", "%d function bodies audited" % nb, "only %d bodies in scope: the module paths no longer match" % nb)
+
+    with ctx.rule("C09.R8", "T4", "the printers write a float in a form the tokenizer reads back as a float", floor=2) as r:
+        # `{}` (Display) prints 2.0 as `2`, which the tokenizer reads as an integer: a float must reach the output through the exponent form ({:e})
+        # or ryu's shortest representation (always with `.` or `e`), never through a writer that only knows Display
+        n = 0
+        for b in rc.all_bodies():
+            if b.meta.get("name") != "write_f64" or "::printer::" not in b.defpath or "::tests" in b.defpath:
+                continue
+            vals = [i for i in range(1, b.argc + 1) if b.locals[i] == "f64"]
+            if len(vals) != 1:
+                continue
+            n += 1
+            ctx.saw(b)
+            v = vals[0]
+            sinks = []
+            for c in b.calls:
+                for a in c.args:
+                    srcs = b.sources(_component(b, a), stop_at_calls=True)
+                    if any(s_[0] == "arg" and s_[1] == v for s_ in srcs):
+                        sinks.append(c)
+                        break
+            ok_names = ("format", "format_finite", "new_lower_exp", "new_upper_exp", "is_nan", "is_finite", "is_infinite", "is_sign_negative", "fract", "abs")
+            bad = [c for c in sinks if c.name not in ok_names]
+            nm = (b.meta.get("self_adt") or b.defpath).split("::")[-1].split("<")[0]
+            r.check(bool(sinks) and not bad, "%s::write_f64/float-form" % nm, where(b), "the value reaches the output through %s" % sorted({c.name for c in sinks}),
+                    "%s::write_f64 hands the float to %s, which formats it with Display: an integral value (2.0, -0.0, 1e21) is printed without `.` or exponent and read back as an integer "
+                    "(an attribute `@weight(2.0)` comes back as Int32Value(2))" % (nm, sorted({c.name or "?" for c in bad})))
+        if n < 2:
+            raise AnchorMissing("expected the write_f64 of StructurePrinter and AttributePrinter (found %d)" % n)
+
+    with ctx.rule("C09.R9", "T7", "escape_text copies what it does not escape unchanged, character by character (shared with C11.R8)", floor=1) as r:
+        from rules.common import escape_text_rule
+        escape_text_rule(r, ctx)
